@@ -90,15 +90,17 @@ def run(tier):
         tool_failure(f"ArithTrace failed: {v.error}")
     # 2b. the loop optimiser's closed forms: LoopRules.tla exhaustively at a small range, then
     #     counting loops at the 32-bit range compiled with and without optimisation
+    log(f"[c02] fold phase done at {time.time()-t0:.0f}s")
     lr = tlc("LoopRules", "LoopRulesMC.cfg", workers=8, timeout=900, tag="c02lr")
     tlc_must_pass(lr, "LoopRules.tla model checking")
     lcases = loop_cases(tier)
     lrecs = pc.run_programs(d, "loops", [loop_program(c) for c in lcases], ["raw", 4, 31, "pass:loop"])
     fails += pc.judge_obs(PID, "ObsC02.cfg", lrecs, "c02loops", "counting loops (LoopRules universe at 32 bits)", stats, d)
+    log(f"[c02] loop phase done at {time.time()-t0:.0f}s")
     # 3. whole programs under many configurations
     repo = pc.repo_programs()
-    programs = repo[1::5] if tier == "quick" else repo[1:]
-    n = 80 if tier == "quick" else 1500
+    programs = repo[1::7] if tier == "quick" else repo[1:]
+    n = 60 if tier == "quick" else 1500
     for prof, share in (("loops", 0.4), ("mixed", 0.3), ("closures", 0.15), ("enums", 0.15)):
         programs += pc.generated_programs(d, max(1, int(n * share)), SEED + 2, prof)
     builds = ["raw", 0, 31] + SINGLE + ALL_BUT_ONE + PASSES if tier == "quick" else ["raw"] + list(range(32)) + PASSES
@@ -106,6 +108,7 @@ def run(tier):
     # the whole repository test-suite as one program: reference, default and shipped configuration
     recs += pc.run_programs(d, "alltests", repo[:1], ["raw", 0, 31] if tier == "quick" else ["raw", 0, 8, 23, 31] + PASSES, jobs=1)
     fails += pc.judge_obs(PID, "ObsC02.cfg", recs, "c02", "repository + generated programs", stats, d)
+    log(f"[c02] program phase done at {time.time()-t0:.0f}s")
     cen = pc.census(recs)
     coverage = {
         "programs": len(recs), "disagreements_checked": sum(2 * max(0, len(r.get("builds", {})) - 1) for r in recs + lrecs) + len(rows),
